@@ -139,3 +139,90 @@ package implementation
 //@   ensures[own-flag-only] err == nil ==> stg(context).proxyHas == store(old(stg(context).proxyHas), sendBlock.Address, true) && stg(context).proxyAllowed == store(old(stg(context).proxyAllowed), sendBlock.Address, true)
 //@   ensures[nothing-on-error] err != nil ==> stg(context).proxyHas == old(stg(context).proxyHas) && stg(context).proxyAllowed == old(stg(context).proxyAllowed)
 //@   modifies sendBlock.Data, MF:common/db.DB.proxyHas, MF:common/db.DB.proxyAllowed
+
+// ---- QSR deposited for a future pillar / sentinel registration ------------------------------------------------------------------
+// Deposit: adds exactly the received QSR to the sender's own deposit; pays nothing.
+//@ func DepositQsrMethod.ReceiveBlock(p, context, sendBlock) -> (descendants, err)
+//@   requires p != nil && sendBlock != nil && sendBlock.Amount != nil
+//@   ensures[no-payment] len(descendants) == 0
+//@   ensures[deposit-grows-by-received-amount] err == nil ==> stg(context).qsrDep == store(old(stg(context).qsrDep), sendBlock.Address, old(stg(context).qsrDep)[sendBlock.Address] + val(sendBlock.Amount))
+//@   ensures[qsr-only] err == nil ==> sendBlock.TokenStandard == types.QsrTokenStandard && val(sendBlock.Amount) > 0
+//@   ensures[nothing-on-error] err != nil ==> stg(context).qsrDep == old(stg(context).qsrDep)
+//@   modifies sendBlock.Data, MF:common/db.DB.qsrDep
+
+// Withdraw: pays the sender's whole deposit to the sender and clears it in the same call.
+//@ func WithdrawQsrMethod.ReceiveBlock(p, context, sendBlock) -> (descendants, err)
+//@   requires p != nil && sendBlock != nil && sendBlock.Amount != nil
+//@   ensures[one-payment] err == nil ==> len(descendants) == 1 && descendants[0] != nil && descendants[0].Amount != nil && descendants[0].BlockType == nom.BlockTypeContractSend
+//@   ensures[to-the-depositor] err == nil ==> descendants[0].ToAddress == sendBlock.Address && descendants[0].TokenStandard == types.QsrTokenStandard
+//@   ensures[exact-amount] err == nil ==> val(descendants[0].Amount) == old(stg(context).qsrDep)[sendBlock.Address]
+//@   ensures[never-twice] err == nil ==> stg(context).qsrDep == store(old(stg(context).qsrDep), sendBlock.Address, 0)
+//@   ensures[nothing-on-error] err != nil ==> len(descendants) == 0 && stg(context).qsrDep == old(stg(context).qsrDep)
+//@   modifies sendBlock.Data, MF:common/db.DB.qsrDep
+
+// Consumption by a registration: only from the registering owner's deposit, only if it covers the price, exactly the price.
+//@ func checkAndConsumeQsr(context, ownerAddress, requiredAmount) -> (err)
+//@   requires requiredAmount != nil
+//@   ensures[covers-the-price] err == nil ==> old(stg(context).qsrDep)[ownerAddress] >= val(requiredAmount)
+//@   ensures[exactly-the-price] err == nil ==> stg(context).qsrDep == store(old(stg(context).qsrDep), ownerAddress, old(stg(context).qsrDep)[ownerAddress] - val(requiredAmount))
+//@   ensures[nothing-on-error] err != nil ==> stg(context).qsrDep == old(stg(context).qsrDep)
+//@   modifies MF:common/db.DB.qsrDep
+
+// ---- pillar collateral -------------------------------------------------------------------------------------------------------
+// The revoke window: never inside the first lock period after registration, and only in the revoke part of each cycle.
+//@ func PillarGetRevokeStatus(old, m) -> (status, remaining)
+//@   requires old != nil && m != nil && m.Timestamp != nil
+//@   requires[clock-after-registration] timenano(m.Timestamp) / 1000000000 >= old.RegistrationTime && old.RegistrationTime >= 0
+//@   ensures[locked-first] status ==> timenano(m.Timestamp) / 1000000000 - old.RegistrationTime >= constants.PillarEpochLockTime
+//@   ensures[window] status <==> (timenano(m.Timestamp) / 1000000000 - old.RegistrationTime) % (constants.PillarEpochLockTime + constants.PillarEpochRevokeTime) >= constants.PillarEpochLockTime
+//@   modifies nothing
+
+// Storage invariant of the pillar contract: an active entry holds exactly the registration collateral.
+//@ spec pillarsWellFormed(s db.DB) bool = forall n str :: s.pillarHas[n] && s.pillarRevoked[n] == 0 ==> s.pillarAmt[n] == val(constants.PillarStakeAmount)
+
+// Revoke: only the owner, only an active pillar, only inside a revoke window; pays the collateral to the owner and marks the
+// entry revoked with zero collateral in the same call.
+//@ func RevokeMethod.ReceiveBlock(p, context, sendBlock) -> (descendants, err)
+//@   requires p != nil && sendBlock != nil && sendBlock.Amount != nil
+//@   requires[entries-wellformed] pillarsWellFormed(stg(context))
+//@   requires[clock] context.now > 0
+//@   ensures[one-payment] err == nil ==> len(descendants) == 1 && descendants[0] != nil && descendants[0].Amount != nil && descendants[0].Address == types.PillarContract && descendants[0].BlockType == nom.BlockTypeContractSend && descendants[0].TokenStandard == types.ZnnTokenStandard
+//@   ensures[nothing-on-error] err != nil ==> len(descendants) == 0 && stg(context).pillarAmt == old(stg(context).pillarAmt) && stg(context).pillarRevoked == old(stg(context).pillarRevoked)
+//@   ensures-local[active-entry-of-sender] err == nil ==> old(stg(context).pillarHas)[deref(name)] && old(stg(context).pillarRevoked)[deref(name)] == 0 && old(stg(context).pillarOwner)[deref(name)] == sendBlock.Address
+//@   ensures-local[to-the-owner] err == nil ==> descendants[0].ToAddress == sendBlock.Address
+//@   ensures-local[exact-amount] err == nil ==> val(descendants[0].Amount) == old(stg(context).pillarAmt)[deref(name)]
+//@   ensures-local[never-twice] err == nil ==> stg(context).pillarAmt == store(old(stg(context).pillarAmt), deref(name), 0) && stg(context).pillarRevoked[deref(name)] != 0
+//@   at-call PillarGetRevokeStatus assert[entry-and-clock] arg0.RegistrationTime == stg(context).pillarReg[arg0.Name] && timenano(arg1.Timestamp) / 1000000000 == context.now
+//@   modifies sendBlock.Data, MF:common/db.DB.pillar
+
+// ---- sentinel collateral -----------------------------------------------------------------------------------------------------
+//@ func GetSentinelRevokeStatus(registrationTime, m) -> (status, remaining)
+//@   requires m != nil && m.Timestamp != nil
+//@   requires[clock-after-registration] timenano(m.Timestamp) / 1000000000 >= registrationTime && registrationTime >= 0
+//@   ensures[locked-first] status ==> timenano(m.Timestamp) / 1000000000 - registrationTime >= constants.SentinelLockTimeWindow
+//@   ensures[window] status <==> (timenano(m.Timestamp) / 1000000000 - registrationTime) % (constants.SentinelLockTimeWindow + constants.SentinelRevokeTimeWindow) >= constants.SentinelLockTimeWindow
+//@   modifies nothing
+
+// Register: one sentinel per owner; records exactly the received ZNN and the QSR consumed from the owner's deposit.
+//@ func RegisterSentinelMethod.ReceiveBlock(method, context, sendBlock) -> (descendants, err)
+//@   requires method != nil && sendBlock != nil && sendBlock.Amount != nil
+//@   ensures[no-payment] len(descendants) == 0
+//@   ensures[one-per-owner] err == nil ==> !old(stg(context).sentinelHas)[sendBlock.Address]
+//@   ensures[entry-holds-received-znn] err == nil ==> stg(context).sentinelZnn == store(old(stg(context).sentinelZnn), sendBlock.Address, val(sendBlock.Amount)) && sendBlock.TokenStandard == types.ZnnTokenStandard
+//@   ensures[entry-holds-consumed-qsr] err == nil ==> stg(context).sentinelQsr == store(old(stg(context).sentinelQsr), sendBlock.Address, old(stg(context).qsrDep)[sendBlock.Address] - stg(context).qsrDep[sendBlock.Address])
+//@   ensures[nothing-on-error] err != nil ==> stg(context).sentinelZnn == old(stg(context).sentinelZnn) && stg(context).sentinelQsr == old(stg(context).sentinelQsr) && stg(context).qsrDep == old(stg(context).qsrDep)
+//@   modifies sendBlock.Data, MF:common/db.DB.sentinel, MF:common/db.DB.qsrDep
+
+// Revoke: only the owner's own, not yet revoked entry, only inside a revoke window; pays exactly the recorded ZNN and QSR to
+// the owner and zeroes both in the same call.
+//@ func RevokeSentinelMethod.ReceiveBlock(method, context, sendBlock) -> (descendants, err)
+//@   requires method != nil && sendBlock != nil && sendBlock.Amount != nil
+//@   requires[clock] context.now > 0
+//@   ensures[two-payments] err == nil ==> len(descendants) == 2 && descendants[0] != nil && descendants[0].Amount != nil && descendants[1] != nil && descendants[1].Amount != nil
+//@   ensures[to-the-owner] err == nil ==> descendants[0].ToAddress == sendBlock.Address && descendants[1].ToAddress == sendBlock.Address
+//@   ensures[exact-amounts] err == nil ==> descendants[0].TokenStandard == types.ZnnTokenStandard && val(descendants[0].Amount) == old(stg(context).sentinelZnn)[sendBlock.Address] && descendants[1].TokenStandard == types.QsrTokenStandard && val(descendants[1].Amount) == old(stg(context).sentinelQsr)[sendBlock.Address]
+//@   ensures[active-entry-of-sender] err == nil ==> old(stg(context).sentinelHas)[sendBlock.Address] && old(stg(context).sentinelRevoked)[sendBlock.Address] == 0
+//@   ensures[never-twice] err == nil ==> stg(context).sentinelZnn == store(old(stg(context).sentinelZnn), sendBlock.Address, 0) && stg(context).sentinelQsr == store(old(stg(context).sentinelQsr), sendBlock.Address, 0) && stg(context).sentinelRevoked[sendBlock.Address] != 0
+//@   ensures[nothing-on-error] err != nil ==> len(descendants) == 0 && stg(context).sentinelZnn == old(stg(context).sentinelZnn) && stg(context).sentinelQsr == old(stg(context).sentinelQsr)
+//@   at-call GetSentinelRevokeStatus assert[entry-and-clock] arg0 == stg(context).sentinelReg[sendBlock.Address] && timenano(arg1.Timestamp) / 1000000000 == context.now
+//@   modifies sendBlock.Data, MF:common/db.DB.sentinel
